@@ -17,11 +17,14 @@ CONSTANTS Dir,          \* "push" | "pull"
           ReqFin,       \* BOOLEAN responder requires finalization
           MaxPauses,    \* application pause/resume pairs allowed per side
           MaxRestarts,  \* application-level restarts (RestartDataTransferChannel on either node) allowed
+          MaxCloses,    \* application-level closes (CloseDataTransferChannel on either node) allowed
+          OldEnds,      \* ways in which a transport request SUPERSEDED by a restart may still report its end, late, to either side:
+                        \*   subset of {"cancelled" (OnRequestCancelled), "error" (OnChannelCompleted with an error), "silent"}
           MaxLen,       \* history bound
           DumpAtEnd     \* BOOLEAN: print the history when the run is over (simulation)
 
-VARIABLES ch, net, gs, todo, lim, pauses, restarts, h, done
-vars == <<ch, net, gs, todo, lim, pauses, restarts, h, done>>
+VARIABLES ch, net, gs, todo, lim, pauses, restarts, closes, h, done
+vars == <<ch, net, gs, todo, lim, pauses, restarts, closes, h, done>>
 
 Limits == CASE LimitsId = "l2" -> <<2, 0>> [] LimitsId = "l3" -> <<3, 0>> [] LimitsId = "l2_4" -> <<2, 4, 0>> [] OTHER -> << >>
 Pull == Dir = "pull"
@@ -43,14 +46,15 @@ Val0 == Res(TRUE, FALSE, "", FALSE, IF Len(Limits) > 0 THEN Limits[1] ELSE 0, Re
 ValAt(k) == Res(TRUE, FALSE, "", FALSE, IF k <= Len(Limits) THEN Limits[k] ELSE 0, ReqFin)
 
 NoGs == [st |-> "none", arrived |-> FALSE, ext |-> NoMsg, toRq |-> << >>, toRs |-> << >>, next |-> 1, rqPaused |-> FALSE, rsPaused |-> FALSE,
-         doneRq |-> FALSE, doneRs |-> FALSE, opens |-> 0, initd |-> {}]
+         doneRq |-> FALSE, doneRs |-> FALSE, opens |-> 0, initd |-> {},
+         old |-> {}]      \* nodes to which the end of a request superseded by a restart has not been reported yet
 
 Init ==
   /\ ch = [n \in {"A","B"} |-> [has |-> n = "A", rec |-> ZeroRec("Requested"), cache |-> FreshCache]]
   /\ net = IF Pull THEN << >> ELSE << [to |-> "B", msg |-> NewReq] >>
   /\ gs = IF Pull THEN [NoGs EXCEPT !.st = "open", !.ext = NewReq, !.opens = 1] ELSE NoGs
   /\ todo = IF Pull THEN << [node |-> "A", kind |-> "OnChannelOpened", i |-> 0] >> ELSE << >>
-  /\ lim = 1 /\ pauses = [n \in {"A","B"} |-> 0] /\ restarts = 0 /\ h = << >> /\ done = FALSE
+  /\ lim = 1 /\ pauses = [n \in {"A","B"} |-> 0] /\ restarts = 0 /\ closes = 0 /\ h = << >> /\ done = FALSE
 
 (* ---- one stimulus on node n: apply Mgr!Handle, route its outputs ---- *)
 StimOf(n, kind, from, msg, val, args) == [Stim0 EXCEPT !.kind = kind, !.c = "c1", !.from = from, !.msg = msg, !.val = val, !.args = args]
@@ -59,7 +63,9 @@ ApplyTr(g, n, tr) ==      \* effect of node n's transport calls on the link, in 
   LET F[i \in 0..Len(tr)] ==
         IF i = 0 THEN g ELSE
         LET p == F[i-1]  t == tr[i] IN
-        CASE t.call = "open"   -> [NoGs EXCEPT !.st = "open", !.ext = t.msg, !.opens = p.opens + 1, !.next = t.skip + 1]
+        CASE t.call = "open"   -> [NoGs EXCEPT !.st = "open", !.ext = t.msg, !.opens = p.opens + 1, !.next = t.skip + 1,
+                                               \* a request that was still live is superseded: its end is reported later, if at all
+                                               !.old = IF OldEnds # {} /\ p.st = "open" THEN p.old \cup {Rq} \cup (IF p.arrived THEN {Rs} ELSE {}) ELSE p.old]
           [] t.call = "pause"  -> IF n = Rq THEN [p EXCEPT !.rqPaused = TRUE] ELSE [p EXCEPT !.rsPaused = TRUE]
           [] t.call = "resume" -> IF n = Rq THEN [p EXCEPT !.rqPaused = FALSE, !.toRs = Append(@, t.msg)]
                                              ELSE [p EXCEPT !.rsPaused = FALSE, !.toRq = Append(@, t.msg)]
@@ -94,14 +100,14 @@ NetDeliver(i) ==
                      Other(m.to), m.msg, IF lim = 1 THEN Val0 ELSE ValAt(lim), ZeroArgs)
          rest == SubSeq(net, 1, i-1) \o SubSeq(net, i+1, Len(net))
      IN Do(m.to, s, gs, rest, todo)
-  /\ UNCHANGED <<lim, pauses, restarts, done>>
+  /\ UNCHANGED <<lim, pauses, restarts, closes, done>>
 
 (* ---- follow-up callbacks the adapter makes on its own (OnChannelOpened after OpenChannel) ---- *)
 Todo ==
   /\ Live /\ todo # << >>
   /\ Head(todo).kind = "OnChannelOpened"
   /\ LET t == Head(todo) IN Do(t.node, StimOf(t.node, t.kind, Other(t.node), NoMsg, Val0, ZeroArgs), gs, net, Tail(todo))
-  /\ UNCHANGED <<lim, pauses, restarts, done>>
+  /\ UNCHANGED <<lim, pauses, restarts, closes, done>>
 
 (* ---- graphsync: the request reaches the responder side ---- *)
 GsArrive ==
@@ -113,25 +119,25 @@ GsArrive ==
                           !.rsPaused = (r = "pause"),
                           !.st = IF r \in {"nil","pause"} THEN "open" ELSE "done"]
      IN Do(Rs, s, g1, net, todo)
-  /\ UNCHANGED <<lim, pauses, restarts, done>>
+  /\ UNCHANGED <<lim, pauses, restarts, closes, done>>
 GsInitiated(n) ==      \* the transport reports that the request started processing (once per side and request)
   /\ Live /\ gs.st = "open" /\ gs.arrived /\ ch[n].has /\ n \notin gs.initd /\ todo = << >>
   /\ Do(n, StimOf(n, "OnTransferInitiated", Other(n), NoMsg, Val0, ZeroArgs), [gs EXCEPT !.initd = @ \cup {n}], net, todo)
-  /\ UNCHANGED <<lim, pauses, restarts, done>>
+  /\ UNCHANGED <<lim, pauses, restarts, closes, done>>
 GsToRq ==
   /\ Live /\ gs.st \in {"open","done"} /\ gs.toRq # << >>
   /\ LET m == Head(gs.toRq)
          s == StimOf(Rq, IF m.isReq THEN "OnRequestReceived" ELSE "OnResponseReceived", Rs, m, ValAt(lim), ZeroArgs)
          g1 == [gs EXCEPT !.toRq = Tail(@), !.rqPaused = (@ \/ Ret(Rq, s) = "pause")]
      IN Do(Rq, s, g1, net, todo)
-  /\ UNCHANGED <<lim, pauses, restarts, done>>
+  /\ UNCHANGED <<lim, pauses, restarts, closes, done>>
 GsToRs ==
   /\ Live /\ gs.st = "open" /\ gs.arrived /\ gs.toRs # << >>
   /\ LET m == Head(gs.toRs)
          s == StimOf(Rs, IF m.isReq THEN "OnRequestReceived" ELSE "OnResponseReceived", Rq, m, ValAt(lim), ZeroArgs)
          g1 == [gs EXCEPT !.toRs = Tail(@), !.rsPaused = (@ \/ Ret(Rs, s) = "pause")]
      IN Do(Rs, s, g1, net, todo)
-  /\ UNCHANGED <<lim, pauses, restarts, done>>
+  /\ UNCHANGED <<lim, pauses, restarts, closes, done>>
 
 (* ---- one block: queued (+sent if on the wire) at the sender, received at the receiver; three history steps ---- *)
 BArgs(i) == [ZeroArgs EXCEPT !.delta = BSize(i), !.index = i, !.unique = Uniq(i)]
@@ -143,7 +149,7 @@ GsQueue ==
          r == Ret(Rs, s)  rep == Reply(Rs, s)
          g1 == [gs EXCEPT !.next = i + 1, !.rsPaused = (r = "pause"), !.toRq = IF rep.kind # "none" THEN Append(@, rep) ELSE @]
      IN Do(Rs, s, g1, net, << [node |-> Rs, kind |-> "OnDataSent", i |-> i], [node |-> Rq, kind |-> "OnDataReceived", i |-> i] >>)
-  /\ UNCHANGED <<lim, pauses, restarts, done>>
+  /\ UNCHANGED <<lim, pauses, restarts, closes, done>>
 BlockTodo ==
   /\ Live /\ todo # << >> /\ Head(todo).kind \in {"OnDataSent","OnDataReceived"}
   /\ LET t == Head(todo)
@@ -152,7 +158,7 @@ BlockTodo ==
      IN (IF t.kind = "OnDataSent" /\ ~Uniq(t.i)
          THEN UNCHANGED <<ch, net, gs, h>> /\ todo' = Tail(todo)       \* nothing on the wire: no sent accounting
          ELSE Do(t.node, s, g1, net, Tail(todo)))
-  /\ UNCHANGED <<lim, pauses, restarts, done>>
+  /\ UNCHANGED <<lim, pauses, restarts, closes, done>>
 
 (* ---- completion is reported to both sides, in either order ---- *)
 GsComplete(n) ==
@@ -160,7 +166,7 @@ GsComplete(n) ==
   /\ (IF n = Rq THEN ~gs.doneRq ELSE ~gs.doneRs)
   /\ LET g1 == IF n = Rq THEN [gs EXCEPT !.doneRq = TRUE] ELSE [gs EXCEPT !.doneRs = TRUE] IN
        Do(n, StimOf(n, "OnChannelCompleted", Other(n), NoMsg, Val0, ZeroArgs), g1, net, todo)
-  /\ UNCHANGED <<lim, pauses, restarts, done>>
+  /\ UNCHANGED <<lim, pauses, restarts, closes, done>>
 
 (* ---- the responder's application: re-validates when paused by a limit, releases finalization ---- *)
 AppValidate ==
@@ -171,12 +177,12 @@ AppValidate ==
          v == IF fin THEN Res(TRUE, FALSE, "", FALSE, ch["B"].rec.limit, FALSE) ELSE ValAt(lim + 1)
      IN Do("B", StimOf("B", "UpdateValidation", "A", NoMsg, v, ZeroArgs), gs, net, todo)
         /\ lim' = IF fin THEN lim ELSE lim + 1
-  /\ UNCHANGED <<pauses, restarts, done>>
+  /\ UNCHANGED <<pauses, restarts, closes, done>>
 AppPause(n) ==
   /\ Live /\ ch[n].has /\ pauses[n] < 2 * MaxPauses /\ todo = << >> /\ ch[n].rec.status \in PauseStates
   /\ Do(n, StimOf(n, IF pauses[n] % 2 = 0 THEN "Pause" ELSE "Resume", Other(n), NoMsg, Val0, ZeroArgs), gs, net, todo)
   /\ pauses' = [pauses EXCEPT ![n] = @ + 1]
-  /\ UNCHANGED <<lim, restarts, done>>
+  /\ UNCHANGED <<lim, restarts, closes, done>>
 
 (* either application restarts the channel: the creator re-issues the request (push: Restart request on the network;  *)
 (* pull: a new graphsync request that skips the blocks already received), the receiver of the channel asks the       *)
@@ -185,17 +191,35 @@ AppRestart(n) ==
   /\ Live /\ ch[n].has /\ restarts < MaxRestarts /\ todo = << >> /\ ch[n].rec.status \notin Terminal
   /\ Do(n, StimOf(n, "Restart", Other(n), NoMsg, ValAt(lim), ZeroArgs), gs, net, todo)
   /\ restarts' = restarts + 1
-  /\ UNCHANGED <<lim, pauses, done>>
+  /\ UNCHANGED <<lim, pauses, closes, done>>
+
+(* the request a restart superseded ends late: the adapter reports it to the manager like the end of any request *)
+ErrArgs == [ZeroArgs EXCEPT !.err = "e1"]
+GsOldEnd(n, how) ==
+  /\ Live /\ n \in gs.old /\ how \in OldEnds /\ ch[n].has /\ todo = << >>
+  /\ LET g1 == [gs EXCEPT !.old = @ \ {n}] IN
+      (CASE how = "cancelled" -> Do(n, StimOf(n, "OnRequestCancelled", Other(n), NoMsg, Val0, ErrArgs), g1, net, todo)
+         [] how = "error"     -> Do(n, StimOf(n, "OnChannelCompleted", Other(n), NoMsg, Val0, ErrArgs), g1, net, todo)
+         [] OTHER             -> (gs' = g1 /\ UNCHANGED <<ch, net, todo, h>>))
+  /\ UNCHANGED <<lim, pauses, restarts, closes, done>>
+
+(* either application closes (cancels) the channel *)
+AppClose(n) ==
+  /\ Live /\ ch[n].has /\ closes < MaxCloses /\ todo = << >> /\ ch[n].rec.status \notin Terminal
+  /\ Do(n, StimOf(n, "Close", Other(n), NoMsg, Val0, ZeroArgs), gs, net, todo)
+  /\ closes' = closes + 1
+  /\ UNCHANGED <<lim, pauses, restarts, done>>
 
 Quiescent == net = << >> /\ todo = << >> /\ gs.toRq = << >> /\ gs.toRs = << >>
 Dump == /\ DumpAtEnd /\ ~done /\ (Len(h) = MaxLen \/ (Quiescent /\ ch["A"].rec.status \in Terminal /\ (~ch["B"].has \/ ch["B"].rec.status \in Terminal)))
         /\ PrintT(<<"@@case", ToJson([dir |-> Dir, nblocks |-> NBlocks, uniqueBytes |-> UniqueBytes, steps |-> h,
                                        expA |-> ch["A"].rec, expB |-> ch["B"].rec, hasB |-> ch["B"].has])>>)
-        /\ done' = TRUE /\ UNCHANGED <<ch, net, gs, todo, lim, pauses, restarts, h>>
+        /\ done' = TRUE /\ UNCHANGED <<ch, net, gs, todo, lim, pauses, restarts, closes, h>>
 
 Next == \/ \E i \in 1..Len(net) : NetDeliver(i)
         \/ Todo \/ GsArrive \/ GsToRq \/ GsToRs \/ GsQueue \/ BlockTodo
-        \/ \E n \in {"A","B"} : GsInitiated(n) \/ GsComplete(n) \/ AppPause(n) \/ AppRestart(n)
+        \/ \E n \in {"A","B"} : GsInitiated(n) \/ GsComplete(n) \/ AppPause(n) \/ AppRestart(n) \/ AppClose(n)
+        \/ \E n \in {"A","B"}, how \in OldEnds : GsOldEnd(n, how)
         \/ AppValidate \/ Dump
 Spec == Init /\ [][Next]_vars
 
@@ -203,8 +227,9 @@ Spec == Init /\ [][Next]_vars
 Accepted == \E i \in 1..Len(h) : h[i].node = "A" /\ h[i].stim.kind \in {"RecvResponse","OnResponseReceived"} /\ h[i].stim.msg.kind = "New" /\ h[i].stim.msg.accepted
 RecvdAll == \A i \in 1..NBlocks : \E k \in 1..Len(h) : h[k].node = Rq /\ h[k].stim.kind = "OnDataReceived" /\ h[k].stim.args.index = i
 SentFinal == \E k \in 1..Len(h) : h[k].node = "B" /\ (h[k].stim.kind = "OnChannelCompleted" \/ h[k].stim.kind = "UpdateValidation")
+BAppEnded == \E k \in 1..Len(h) : h[k].node = "B" /\ h[k].stim.kind \in {"Close","CloseErr"}       \* "unless its own application cancels or fails it meanwhile"
 C01_Delivered == (ch["A"].rec.status = "Completed" /\ Accepted) =>
-                   /\ ch["B"].has /\ ch["B"].rec.status \in {"Completing","Completed"} /\ SentFinal
+                   /\ ch["B"].has /\ (ch["B"].rec.status \in {"Completing","Completed"} \/ BAppEnded) /\ SentFinal
                    /\ RecvdAll
                    /\ ch[Rq].rec.received = UniqueBytes /\ ch[Rs].rec.queued = UniqueBytes
 SawFinishA == \E k \in 1..Len(h) : h[k].node = "A" /\ h[k].stim.kind = "OnChannelCompleted"
@@ -214,5 +239,5 @@ C08_NoProgressWhilePaused == (ch["B"].has /\ ch["B"].rec.rp /\ ch["B"].rec.statu
 C11_CrossView == (Quiescent /\ ch["B"].has /\ ch["A"].rec.status \in PauseStates /\ ch["B"].rec.status \in PauseStates) =>
                    (ch["A"].rec.ip = ch["B"].rec.ip)
 Constr == Len(h) <= MaxLen
-View == <<ch, net, gs, todo, lim, pauses, restarts, done, Accepted, RecvdAll, SentFinal, SawFinishA, SawFinalA>>
+View == <<ch, net, gs, todo, lim, pauses, restarts, closes, done, Accepted, RecvdAll, SentFinal, SawFinishA, SawFinalA, BAppEnded>>
 =============================================================================
